@@ -10,6 +10,7 @@ mod overflow;
 mod serdeh;
 mod payload;
 mod sized;
+mod slices;
 mod thin;
 mod threads;
 mod uninit;
@@ -51,6 +52,8 @@ fn replay(args: &[String]) {
         std::process::exit(2)
     });
     let mut prog = std::fs::OpenOptions::new().create(true).write(true).truncate(true).open(progress).unwrap();
+    // violations are also appended here one by one, so that they survive a later crash of this process
+    let mut viol_log = std::fs::OpenOptions::new().create(true).write(true).truncate(true).open(format!("{}.viol", out)).unwrap();
     let mut n_lines = 0usize;
     let mut n_replayed = 0usize;
     let mut n_skipped = 0usize;
@@ -96,6 +99,7 @@ fn replay(args: &[String]) {
             "sized" => sized::replay_line(nslots, h, x),
             "thin" => thin::replay_line(nslots, h, x),
             "uninit" => uninit::replay_line(nslots, h, x),
+            "slices" => slices::replay_line(nslots, h, x),
             _ => usage(),
         };
         n_replayed += 1;
@@ -118,6 +122,8 @@ fn replay(args: &[String]) {
             samples.push(v.clone());
         }
         if !errs.is_empty() {
+            let _ = writeln!(viol_log, "{}", json!({"line": n_lines, "h": h, "x": x, "errors": errs}));
+            let _ = viol_log.flush();
             violations.push(json!({"line": n_lines, "h": h, "x": x, "errors": errs}));
             if violations.len() >= maxv {
                 break;
